@@ -10,7 +10,7 @@ use axum::{
     routing::{get, get_service, post},
     Json, Router,
 };
-use easy_error::{ensure, Error};
+use easy_error::{ensure, Error, ResultExt};
 use futures::StreamExt;
 use prometheus::{
     register_histogram_vec, register_int_counter_vec, Encoder, HistogramVec, IntCounterVec,
@@ -119,12 +119,13 @@ impl MetricsServer {
             .layer(TraceLayer::new_for_http());
         // .fallback(not_found.into_service());
 
+        // bind here, where a failure (address in use, not available) is an error to report;
+        // Server::bind() panics instead
+        let server = axum::Server::try_bind(&self.bind)
+            .with_context(|| format!("metrics server failed to bind {}", self.bind))?;
         tokio::spawn(async move {
             info!("metrics server listening on {}", self.bind);
-            axum::Server::bind(&self.bind)
-                .serve(root.into_make_service())
-                .await
-                .unwrap();
+            server.serve(root.into_make_service()).await.unwrap();
         });
 
         Ok(())
